@@ -98,3 +98,18 @@ Proof.
   rewrite (reader_refines (rc_of c) _ s e (Inv_FilesInv c _ Hc Hsc Hrule HI Hso)).
   apply runs_ext. intros k _. rewrite files_abs_lookup. apply Hlk.
 Qed.
+
+(* the round trip for histories of block calls (rf_write_blocks / digital_rf_write_blocks_hdf5 with any
+   number of blocks per call; single-block calls are the one-block instance), chunked mode *)
+From DRF Require Import Proofs.WriterMultiIdx Proofs.WriterMulti.
+
+Theorem roundtrip_blocks_chunked c ops s e : vcfg c -> 0 < c_sc c -> (c_sc c * 1000) mod c_fc c = 0 ->
+  c_chunk c = true -> Forall (fun op => first_nonneg (fst op)) ops ->
+  read ExactRational (rc_of c) (map (to_rfile c) (all_files (fold_left (model_step_blocks c) ops init_state))) s e
+  = runs (s_map (fold_left (spec_step_blocks c) ops spec_init)) s e.
+Proof.
+  intros Hc Hsc Hrule Hch Hops.
+  destruct (writer_refines_blocks_chunked c ops Hc Hch Hops) as (HI & Hgi & Hlk & Hso).
+  rewrite (reader_refines (rc_of c) _ s e (Inv_FilesInv c _ Hc Hsc Hrule HI Hso)).
+  apply runs_ext. intros k _. rewrite files_abs_lookup. apply Hlk.
+Qed.
